@@ -165,6 +165,18 @@ def _conv_application(fi, value, convnames):
     (X expr, [conv names applied]) else None."""
     v = U.expand_locals(fi.node, value, before=getattr(value, 'lineno', None),
                         keep=convnames)
+    r = _conv_application_of(v, convnames)
+    if r is None and getattr(value, 'lineno', None) is not None:
+        # a local that is re-bound on the way (x = P; x = conv(x); P = x):
+        # flow-sensitive straight-line expansion at the point of the store;
+        # locals whose last definition is conditional / looped stay symbolic
+        # and the store is then not recognised as a conversion
+        v = U.value_at(fi.node, value, value.lineno, keep=convnames)
+        r = _conv_application_of(v, convnames)
+    return r
+
+
+def _conv_application_of(v, convnames):
     # list comprehension
     if isinstance(v, ast.ListComp) and len(v.generators) == 1 and \
             not v.generators[0].ifs:
